@@ -143,12 +143,13 @@ func H_defspec() {
 			vSetenv("VY", "ey")
 		}
 	}
-	implicit := vRunTable(vAppCfg{spec: "", declMask: mask, policy: flag.ContinueOnError, wantHelp: true, envAll: withEnv, argEnv: withEnv}, argv)
+	argsFirst := vParamInt("argsFirst") == 1 // arguments declared before the options
+	implicit := vRunTable(vAppCfg{spec: "", declMask: mask, policy: flag.ContinueOnError, wantHelp: true, envAll: withEnv, argEnv: withEnv, argsFirst: argsFirst}, argv)
 	var expl vOutcome
 	if explicit == "" {
 		expl = implicit // the explicit spec of an empty declaration set is the empty spec itself
 	} else {
-		expl = vRunTable(vAppCfg{spec: explicit, declMask: mask, policy: flag.ContinueOnError, wantHelp: true, envAll: withEnv, argEnv: withEnv}, argv)
+		expl = vRunTable(vAppCfg{spec: explicit, declMask: mask, policy: flag.ContinueOnError, wantHelp: true, envAll: withEnv, argEnv: withEnv, argsFirst: argsFirst}, argv)
 	}
 	vObserveOutcome("implicit", implicit)
 	vObserveOutcome("explicit", expl)
